@@ -52,6 +52,9 @@ using namespace rkcommon::math;
   extern "C" void R_index_##ID(const T *a, T *out) { EL##S(a[i]) }                                         \
   extern "C" void L_ptr_##ID(const T *a, T *out) { const V r(a); const T *p = r; EL##S(p[i]) }             \
   extern "C" void R_ptr_##ID(const T *a, T *out) { EL##S(a[i]) }                                           \
+  /* construction from a pointer touches exactly the N source elements: the whole constructed object is handed out */ \
+  extern "C" void L_ctorptr_whole_##ID(const T *v, V *out) { *out = V(v); }                               \
+  extern "C" void R_ctorptr_whole_##ID(const T *v, V *out) { T *o = &out->x; { T *out = o; EL##S(v[i]) } } \
   extern "C" void L_bcast_##ID(T s, T *out) { V r(s); ST##S(r) }                                           \
   extern "C" void R_bcast_##ID(T s, T *out) { EL##S(s) }
 
@@ -263,3 +266,26 @@ extern "C" void L_diveq_f4_d(const float *a, double s, float *out) { vec4f r(a);
 extern "C" void R_diveq_f4_d(const float *a, double s, float *out) { EL4(float(double(a[i]) / s)) }
 extern "C" void L_subeq_i3a_f3(const int *a, const float *b, int *out) { vec3ia r(a); r -= vec3f(b); ST3(r) }
 extern "C" void R_subeq_i3a_f3(const int *a, const float *b, int *out) { EL3(int(float(a[i]) - b[i])) }
+
+// long_product: every component is widened to size_t before the product is formed (visible on the narrow unsigned types)
+#define LONGPROD(T, TN)                                                                                               \
+  extern "C" unsigned long L_longprod_##TN##2(const T *a) { return vec_t<T, 2>(a[0], a[1]).long_product(); }                   \
+  extern "C" unsigned long R_longprod_##TN##2(const T *a) { return (unsigned long)(a[0]) * (unsigned long)(a[1]); }   \
+  extern "C" unsigned long L_longprod_##TN##3(const T *a) { return vec_t<T, 3>(a[0], a[1], a[2]).long_product(); }                   \
+  extern "C" unsigned long R_longprod_##TN##3(const T *a)                                                             \
+  {                                                                                                                   \
+    return (unsigned long)(a[0]) * (unsigned long)(a[1]) * (unsigned long)(a[2]);                                     \
+  }                                                                                                                   \
+  extern "C" unsigned long L_longprod_##TN##3a(const T *a) { return vec_t<T, 3, true>(a[0], a[1], a[2]).long_product(); }            \
+  extern "C" unsigned long R_longprod_##TN##3a(const T *a)                                                            \
+  {                                                                                                                   \
+    return (unsigned long)(a[0]) * (unsigned long)(a[1]) * (unsigned long)(a[2]);                                     \
+  }                                                                                                                   \
+  extern "C" unsigned long L_longprod_##TN##4(const T *a) { return vec_t<T, 4>(a[0], a[1], a[2], a[3]).long_product(); }                   \
+  extern "C" unsigned long R_longprod_##TN##4(const T *a)                                                             \
+  {                                                                                                                   \
+    return (unsigned long)(a[0]) * (unsigned long)(a[1]) * (unsigned long)(a[2]) * (unsigned long)(a[3]);             \
+  }
+LONGPROD(unsigned char, uc)
+LONGPROD(unsigned short, us)
+LONGPROD(unsigned, ui)
